@@ -167,7 +167,7 @@ def _point(kind, sql, attempt):
             if waited + delay > BUSY_TIMEOUT_MS:
                 delay = BUSY_TIMEOUT_MS - waited
             if delay <= 0:
-                _PREV_FAILED[0] = True
+                _PREV_FAILED[0] = "busy"      # timed out on the lock: the statement never executed
                 raise
             waited += delay
             n += 1
@@ -319,7 +319,8 @@ def _child_loop(child_main, child_teardown):
                 child_teardown()
             finally:
                 _PASS[0] = False
-        _send(_CH[1], ("done", _BYPASS[0]))
+        _send(_CH[1], ("done", _BYPASS[0], _PREV_FAILED[0]))
+        _PREV_FAILED[0] = False
 
 
 _FROZEN = [False]
@@ -612,7 +613,9 @@ def simulate(scripts, child_main, child_teardown, cfg, sched_rng=None, fault_rng
                 p.last_kind = executed_kind
                 if executed_kind in COARSE_KINDS:
                     res.coarse_trace.append((p.idx, executed_kind))
-            prev_failed = bool(m[3]) if tag == "yield" and len(m) > 3 else False
+            prev_failed = (m[3] if tag == "yield" and len(m) > 3 else (m[2] if tag == "done" and len(m) > 2 else False))
+            never_ran = prev_failed == "busy"
+            prev_failed = bool(prev_failed)
             # who holds the write lock, and does it hold it only for the window every writer needs?
             #   needed:   [successful write .. its commit]   and   [failed write .. its rollback]
             #   needless: any other statement executed while the write transaction is open
@@ -623,6 +626,8 @@ def simulate(scripts, child_main, child_teardown, cfg, sched_rng=None, fault_rng
                     p.injected_failure = False
                 else:
                     p.injected_failure = p.injected_failure or bool(inject)
+            elif is_write_kind(executed_kind) and never_ran:
+                pass                               # lock time-out: the statement had no effect and holds nothing
             elif is_write_kind(executed_kind):
                 if p.txn_open:
                     p.clean_hold = False           # a further statement inside an already open write transaction
